@@ -126,7 +126,10 @@ def run(chk):
     # ---- 2. the no-op templates through the CLI, all three modes
     n_trees = 40 if chk.tier == "quick" else 600
     name_pool = ["a", "a.txt", ".hidden", "trail.", "a.b.c", "...", "..x", "sp ace.t x", "é.ñ", "100%", "{x}", "a|b", "x\\y",
-                 "'q'", "\"d\"", "-dash", "tab\tname", "a.tar.gz", ".a.b", "%Name()", "UP.TXT", "noext", "x.", "  ", "$(x)", "*"]
+                 "'q'", "\"d\"", "-dash", "tab\tname", "a.tar.gz", ".a.b", "%Name()", "UP.TXT", "noext", "x.", "  ", "$(x)", "*",
+                 # names that are not in a Unicode normal form / have compatibility look-alikes: any
+                 # normalisation, case folding or re-encoding between rendering and comparing shows here
+                 "e\u0301.txt", "\u2126hm", "\u212bng.\u212b", "\ufb01le", "I\u0307.x", "\u1e9e", "a\u0308\u0323", "\uff21.\uff54xt"]
     runs = 0
     for t in range(n_trees):
         spec = []
